@@ -39,7 +39,8 @@ def vector(Es):
     vs = sorted(set().union(*[G.e_vars(E) for E in Es]))
     if not vs:
         return [float(E) for E in Es]
-    comps = ["(%s + 0*%s)" % (G.e_src(E), vs[0]) for E in Es]
+    zero = "0*(%s)" % " + ".join(vs)     # broadcasts every component to the common number of rows
+    comps = ["(%s + %s)" % (G.e_src(E), zero) for E in Es]
     src = "lambda %s: torch.cat([%s], dim=1)" % (", ".join(vs), ", ".join(comps))
     return eval(src, {"torch": torch})
 
@@ -60,7 +61,12 @@ def build(node):
     if k == "pt":
         return D.Point(mkspace(node["var"], node["dim"]), vector(node["p"]))
     if k == "poly":
-        return D.ShapelyPolygon(mkspace(node["var"], 2), vertices=[list(map(float, v)) for v in node["verts"]])
+        from torchphysics.problem.domains.domain2D.shapely_polygon import ShapelyPolygon
+        if node.get("holes"):
+            import shapely.geometry as s_geo
+            return ShapelyPolygon(mkspace(node["var"], 2), shapely_polygon=s_geo.Polygon(
+                [tuple(map(float, v)) for v in node["verts"]], [[tuple(map(float, v)) for v in h] for h in node["holes"]]))
+        return ShapelyPolygon(mkspace(node["var"], 2), vertices=[list(map(float, v)) for v in node["verts"]])
     if k == "union":
         from torchphysics.problem.domains.domainoperations.union import UnionDomain
         a, b = build(node["a"]), build(node["b"])
